@@ -390,9 +390,10 @@ gen_c18()
 	if (lmq)
 		t = "qinit " + std::to_string(*pbt::range<int>(0, 9)) + "\n";
 	else {
-		uint64_t lo = *gen::element<uint64_t>(0, 1, 5, 100, 0x7ffffff0ull, (1ull << 32) + 10);
+		uint64_t lo = *gen::element<uint64_t>(0, 1, 5, 100, 0x7ffffff0ull, (1ull << 32) + 10, 0xfffffffffffffff0ull, 0xfffffffffffffff8ull);
 		uint64_t w  = *gen::element<uint64_t>(1, 2, 3, 7, 8, 15, 40, 1000, 0xffffffffull);
-		t = "minit " + std::to_string(lo) + " " + std::to_string(lo + w) + " " + std::to_string(*pbt::range<int>(0, 1)) + "\n";
+		// (ranges that end exactly at, or are clipped to, the top of the 64-bit space: the allocation cursor must wrap there too)
+		t = "minit " + std::to_string(lo) + " " + std::to_string(lo + w < lo ? ~0ull : lo + w) + " " + std::to_string(*pbt::range<int>(0, 1)) + "\n";
 	}
 	for (auto &l : ops)
 		t += l + "\n";
